@@ -8,6 +8,9 @@ import (
 
 	"github.com/yorkie-team/yorkie/api/converter"
 	"github.com/yorkie-team/yorkie/api/types"
+	"github.com/yorkie-team/yorkie/client"
+	"github.com/yorkie-team/yorkie/pkg/document/json"
+	"github.com/yorkie-team/yorkie/pkg/document/presence"
 	"github.com/yorkie-team/yorkie/server/backend/database"
 	"github.com/yorkie-team/yorkie/server/documents"
 	"github.com/yorkie-team/yorkie/server/packs"
@@ -26,6 +29,12 @@ func c10fail(kind, format string, a ...any) *prog.Failure {
 
 func evalC10(p prog.Program) (out Outcome) {
 	r := prog.NewRunner(p, "c10")
+	rod := p.Cfg.Flags["rod"] == 1 && p.Cfg.Flags["mode"] == 1
+	if rod {
+		// a project with RemoveOnDetach: the detach of the last attached
+		// client - here a stale one - is turned into a removal by the server
+		r.Proj = r.S.ProjectWith(p.Cfg.Interval, p.Cfg.Threshold, "c10", true)
+	}
 	r.Guard = guardFor("C01", p)
 	out.Ev = r.Ev
 	defer func() {
@@ -62,6 +71,12 @@ func evalC10(p prog.Program) (out Outcome) {
 	be := r.S.BE
 	mode := p.Cfg.Flags["mode"] // 0: all detached, non-forced; 1: forced with attached (stale) clients
 	staleActs := p.Cfg.Flags["stale"]
+	stalePO := p.Cfg.Flags["stalepo"]
+	staleEdit := p.Cfg.Flags["staleedit"]
+	var docID types.ID
+	if di, err := r.DocInfo(); err == nil {
+		docID = di.ID
+	}
 
 	state := func() (epoch int64, head int64, rows int, f *prog.Failure) {
 		infos, di, err := r.Log()
@@ -177,93 +192,189 @@ func evalC10(p prog.Program) (out Outcome) {
 	}
 
 	// C. stale clients: sync is refused with ErrEpochMismatch and stores nothing; detach succeeds
-	for i, q := range stale {
-		_, h2, n2, f := state()
-		if f != nil {
-			return fail(f)
-		}
-		unsent := q.D.HasLocalChanges()
-		if staleActs&(1<<uint(i)) == 0 {
-			err := q.C.Sync(ctx)
-			r.S.WaitIdle()
-			r.Logf("c%d: stale sync (unsent edits: %v) -> %v", q.Idx, unsent, err)
-			if err == nil {
-				return fail(c10fail("STALE-SYNC-ACCEPTED", "c%d (old generation, unsent edits: %v) synced successfully after compaction", q.Idx, unsent))
-			}
-			if code := converter.ErrorCodeOf(err); code != packs.ErrEpochMismatch.Code() {
-				return fail(c10fail("STALE-SYNC-WRONG-ERROR", "c%d: stale sync failed with %q (%v), want ErrEpochMismatch", q.Idx, code, err))
-			}
-			_, h3, n3, f := state()
+	handleStale := func() *prog.Failure {
+		for i, q := range stale {
+			_, h2, n2, f := state()
 			if f != nil {
-				return fail(f)
+				return f
 			}
-			if h3 != h2 || n3 != n2 {
-				return fail(c10fail("STALE-CHANGES-STORED", "refused stale sync of c%d changed the log: head %d->%d rows %d->%d", q.Idx, h2, h3, n2, n3))
+			unchanged := func(what string) *prog.Failure {
+				_, h3, n3, f := state()
+				if f != nil {
+					return f
+				}
+				if h3 != h2 || n3 != n2 {
+					return c10fail("STALE-CHANGES-STORED", "%s of c%d changed the log: head %d->%d rows %d->%d", what, q.Idx, h2, h3, n2, n3)
+				}
+				return nil
 			}
-			r.Ev["stale_sync_refused"]++
-			if unsent {
-				r.Ev["stale_sync_with_unsent"]++
+			unsent := q.D.HasLocalChanges()
+			if stalePO&(1<<uint(i)) != 0 {
+				// a push-only sync first (a realtime client in push-only mode):
+				// whatever it is answered, nothing of it may be stored and it
+				// must not turn the client into a member of the new generation
+				err := q.C.Sync(ctx, client.WithKey(r.DocKey).WithPushOnly())
+				r.S.WaitIdle()
+				r.Logf("c%d: stale push-only sync (unsent edits: %v) -> %v", q.Idx, unsent, err)
+				if err != nil && converter.ErrorCodeOf(err) != packs.ErrEpochMismatch.Code() {
+					return c10fail("STALE-SYNC-WRONG-ERROR", "c%d: stale push-only sync failed with %q (%v)", q.Idx, converter.ErrorCodeOf(err), err)
+				}
+				if f := unchanged("stale push-only sync"); f != nil {
+					return f
+				}
+				r.Ev["stale_pushonly"]++
+				if staleEdit&(1<<uint(i)) != 0 {
+					// and one more unsent edit of the old generation
+					if err := q.D.Update(func(root *json.Object, _ *presence.Presence) error {
+						root.SetString("stale", "old-generation")
+						return nil
+					}); err != nil {
+						return c10fail("HARNESS", "stale edit: %v", err)
+					}
+					unsent = true
+				}
 			}
-		}
-		err := q.C.Detach(ctx, q.D)
-		r.S.WaitIdle()
-		r.Logf("c%d: stale detach -> %v", q.Idx, err)
-		if err != nil {
-			return fail(c10fail("STALE-DETACH-FAILED", "c%d: %v", q.Idx, err))
-		}
-		ci, err := be.DB.FindClientInfoByRefKey(ctx, types.ClientRefKey{ProjectID: r.Proj.ID, ClientID: types.IDFromActorID(q.C.ID())})
-		if err != nil {
-			return fail(c10fail("HARNESS", "client info: %v", err))
-		}
-		di, _ := r.DocInfo()
-		if d := ci.Documents[di.ID]; d == nil || d.Status != database.DocumentDetached {
-			return fail(c10fail("STALE-DETACH-NO-EFFECT", "c%d: document status after stale detach: %+v", q.Idx, d))
-		}
-		_, _, n4, f := state()
-		if f != nil {
-			return fail(f)
-		}
-		// a stale detach may store nothing of the old generation
-		infos, _, _ := r.Log()
-		for _, row := range infos[min(n2, len(infos)):] {
-			if len(row.Operations) > 0 && row.ActorID.String() == q.ID {
-				return fail(c10fail("STALE-CHANGES-STORED", "stale detach of c%d stored an old-generation change with operations (serverSeq %d)", q.Idx, row.ServerSeq))
+			if staleActs&(1<<uint(i)) == 0 {
+				err := q.C.Sync(ctx)
+				r.S.WaitIdle()
+				r.Logf("c%d: stale sync (unsent edits: %v) -> %v", q.Idx, unsent, err)
+				if err == nil {
+					return c10fail("STALE-SYNC-ACCEPTED", "c%d (old generation, unsent edits: %v) synced successfully after compaction", q.Idx, unsent)
+				}
+				if code := converter.ErrorCodeOf(err); code != packs.ErrEpochMismatch.Code() {
+					return c10fail("STALE-SYNC-WRONG-ERROR", "c%d: stale sync failed with %q (%v), want ErrEpochMismatch", q.Idx, code, err)
+				}
+				if f := unchanged("refused stale sync"); f != nil {
+					return f
+				}
+				r.Ev["stale_sync_refused"]++
+				if unsent {
+					r.Ev["stale_sync_with_unsent"]++
+				}
 			}
+			err := q.C.Detach(ctx, q.D)
+			r.S.WaitIdle()
+			r.Logf("c%d: stale detach -> %v", q.Idx, err)
+			if err != nil {
+				return c10fail("STALE-DETACH-FAILED", "c%d: %v", q.Idx, err)
+			}
+			ci, err := be.DB.FindClientInfoByRefKey(ctx, types.ClientRefKey{ProjectID: r.Proj.ID, ClientID: types.IDFromActorID(q.C.ID())})
+			if err != nil {
+				return c10fail("HARNESS", "client info: %v", err)
+			}
+			d := ci.Documents[docID]
+			if d == nil || !(d.Status == database.DocumentDetached || (rod && d.Status == database.DocumentRemoved)) {
+				return c10fail("STALE-DETACH-NO-EFFECT", "c%d: document status after stale detach: %+v", q.Idx, d)
+			}
+			// a stale detach may store nothing of the old generation
+			infos, _, _ := r.Log()
+			for _, row := range infos[min(n2, len(infos)):] {
+				if len(row.Operations) > 0 && row.ActorID.String() == q.ID {
+					return c10fail("STALE-CHANGES-STORED", "stale detach of c%d stored an old-generation change with operations (serverSeq %d)", q.Idx, row.ServerSeq)
+				}
+			}
+			r.Ev["stale_detach"]++
 		}
-		_ = n4
-		r.Ev["stale_detach"]++
-	}
-	if got := fresh.D.Marshal(); got != before {
-		return fail(c10fail("HARNESS", "fresh content changed without sync"))
+		return nil
 	}
 
 	// D. fresh clients go on editing and converge; content starts from `before`
-	if f := r.AddPeer(true); f != nil {
-		return fail(f)
-	}
-	if got := r.Peers[len(r.Peers)-1].D.Marshal(); got != before {
-		return fail(c10fail("COMPACTION-CHANGED-CONTENT", "second fresh attach (after stale clients were handled):\n got %s\nwant %s", got, before))
-	}
-	for _, s := range p.Tail {
-		s.Who = nFirstFresh + s.Who%2
-		if s.Op == "attach" || s.Op == "detach" || s.Op == "reattach" {
-			s.Op = "sync"
+	freshTail := func() *prog.Failure {
+		if f := r.AddPeer(true); f != nil {
+			return f
 		}
-		r.Peers[s.Who].Attached = true
-		ns := s
-		ns.Who = s.Who // resolved modulo len(r.Peers) below
-		if f := r.Step(prog.Step{Who: s.Who, Op: s.Op, A: s.A, B: s.B, C: s.C}); f != nil {
+		if got := r.Peers[len(r.Peers)-1].D.Marshal(); got != before {
+			return c10fail("COMPACTION-CHANGED-CONTENT", "second fresh attach:\n got %s\nwant %s", got, before)
+		}
+		for _, s := range p.Tail {
+			s.Who = nFirstFresh + s.Who%2
+			if s.Op == "attach" || s.Op == "detach" || s.Op == "reattach" {
+				s.Op = "sync"
+			}
+			r.Peers[s.Who].Attached = true
+			if f := r.Step(prog.Step{Who: s.Who, Op: s.Op, A: s.A, B: s.B, C: s.C}); f != nil {
+				f.Kind = "AFTER-COMPACTION-" + f.Kind
+				return f
+			}
+		}
+		if f := r.Quiesce(false); f != nil {
+			f.Kind = "AFTER-COMPACTION-" + f.Kind
+			return f
+		}
+		if f := r.CheckConverged(); f != nil {
+			f.Kind = "AFTER-COMPACTION-" + f.Kind
+			return f
+		}
+		return nil
+	}
+	if rod {
+		// the fresh client leaves again, so that the last stale client to
+		// detach is the last attached client of the document
+		if err := fresh.C.Detach(ctx, fresh.D); err != nil {
+			return fail(c10fail("DETACHFAIL", "fresh c%d: %v", fresh.Idx, err))
+		}
+		fresh.Attached = false
+		r.S.WaitIdle()
+		if f := handleStale(); f != nil {
+			return fail(f)
+		}
+		r.Ev["remove_on_detach"]++
+		out.NonTrivial = r.Ev["compacted"] > 0 && r.Ev["stale_detach"] > 0
+		return out
+	}
+	if p.Cfg.Flags["order"] == 1 {
+		// the new generation grows first (past the head the stale clients
+		// acknowledged), then the stale clients show up
+		if f := freshTail(); f != nil {
+			return fail(f)
+		}
+		want := r.Content()
+		if f := handleStale(); f != nil {
+			return fail(f)
+		}
+		if f := r.Quiesce(false); f != nil {
 			f.Kind = "AFTER-COMPACTION-" + f.Kind
 			return fail(f)
 		}
+		if f := r.CheckConverged(); f != nil {
+			f.Kind = "AFTER-COMPACTION-" + f.Kind
+			return fail(f)
+		}
+		if got := r.Content(); got != want {
+			return fail(c10fail("STALE-CHANGES-MERGED", "content of the new generation changed while the stale clients were handled:\n got %s\nwant %s", got, want))
+		}
+		r.Ev["stale_after_growth"]++
+	} else {
+		if f := handleStale(); f != nil {
+			return fail(f)
+		}
+		if got := fresh.D.Marshal(); got != before {
+			return fail(c10fail("HARNESS", "fresh content changed without sync"))
+		}
+		if f := freshTail(); f != nil {
+			return fail(f)
+		}
 	}
-	if f := r.Quiesce(false); f != nil {
-		f.Kind = "AFTER-COMPACTION-" + f.Kind
+	// a late joiner and the server's own (cache-assisted) build of the head
+	// both equal the new generation's replicas
+	want := r.Content()
+	if f := r.AddPeer(true); f != nil {
 		return fail(f)
 	}
-	if f := r.CheckConverged(); f != nil {
-		f.Kind = "AFTER-COMPACTION-" + f.Kind
-		return fail(f)
+	if got := r.Peers[len(r.Peers)-1].D.Marshal(); got != want {
+		return fail(c10fail("AFTER-COMPACTION-LATE-ATTACH-DIFFERS", "late attach to the compacted and since edited document:\n got %s\nwant %s", got, want))
+	}
+	if di, err := r.DocInfo(); err == nil {
+		d, err := packs.BuildInternalDocForServerSeq(ctx, be, di, di.ServerSeq)
+		if err != nil {
+			return fail(c10fail("AFTER-COMPACTION-BUILDFAIL", "server build of head %d: %v", di.ServerSeq, err))
+		}
+		if got := d.Marshal(); got != want {
+			return fail(c10fail("AFTER-COMPACTION-SERVERDOC-DIFFERS", "server build of head %d (old head %d):\n got %s\nwant %s", di.ServerSeq, h0, got, want))
+		}
+		if di.ServerSeq >= h0 {
+			r.Ev["outgrew_old_head"]++
+		}
 	}
 	// E. optional second compaction
 	if p.Cfg.Flags["second"] == 1 {
@@ -315,6 +426,15 @@ func genC10() *rapid.Generator[prog.Program] {
 			"tryattached": rapid.IntRange(0, 1).Draw(t, "tryattached"),
 			"second":      boolInt(rapid.IntRange(0, 3).Draw(t, "second") == 0),
 			"empty":       boolInt(rapid.IntRange(0, 5).Draw(t, "empty") == 0),
+			"stalepo":     rapid.IntRange(0, 63).Draw(t, "stalepo") & rapid.IntRange(0, 63).Draw(t, "stalepo2"),
+			"staleedit":   rapid.IntRange(0, 63).Draw(t, "staleedit"),
+			"order":       rapid.IntRange(0, 1).Draw(t, "order"),
+			"rod":         boolInt(rapid.IntRange(0, 4).Draw(t, "rod") == 0),
+		}
+		// a quarter of the cases: a short history before the compaction, so
+		// that the new generation outgrows the old head
+		if rapid.IntRange(0, 3).Draw(t, "short") == 0 && len(p.Steps) > 4 {
+			p.Steps = p.Steps[:rapid.IntRange(0, 4).Draw(t, "prefix")]
 		}
 		return p
 	})
